@@ -8,6 +8,8 @@ import (
 	"fmt"
 	"io"
 	"io/fs"
+	"net/http"
+	"net/http/httptest"
 	"os"
 	"path"
 	"path/filepath"
@@ -128,7 +130,7 @@ func outsideChanges(before, after map[string]string, allowed string) []string {
 func corrPaths(seed uint64, n int, tier string, out string, replay string) {
 	m := StartModel()
 	defer m.Close()
-	rep := NewReport("C16", "paths", seed, "case = (a) arbitrary strings through path.Clean vs the Lean pathClean; (b) tar entry names built from adversarial atoms (.., ., empty, drive prefixes, backslashes, absolute, Chart.yaml) through loader.LoadArchiveFiles vs the Lean name normaliser; (c) the same archives and symlink/hardlink entries through chartutil.Expand and the plugin TarGzExtractor into a sandbox with pre-planted symlinks, with a before/after snapshot of everything outside the destination; (d) size sequences around the per-file and total limits (limits lowered through the exported variables, the model told the same numbers); (e) Manager.Update on a chart with a symlink planted at Chart.lock / requirements.lock in four shapes (relative target with .., absolute target, local-looking target through a directory link that leaves the chart, target inside the chart); non-trivial = name has a '..', '.', empty, absolute, drive or backslash component; distinct = hash of the case")
+	rep := NewReport("C16", "paths", seed, "case = (a) arbitrary strings through path.Clean vs the Lean pathClean; (b) tar entry names built from adversarial atoms (.., ., empty, drive prefixes, backslashes, absolute, Chart.yaml) through loader.LoadArchiveFiles vs the Lean name normaliser; (c) the same archives and symlink/hardlink entries through chartutil.Expand and the plugin TarGzExtractor into a sandbox with pre-planted symlinks, with a before/after snapshot of everything outside the destination; (d) size sequences around the per-file and total limits (limits lowered through the exported variables, the model told the same numbers); (f) ChartDownloader.DownloadTo of chart URLs whose last segment carries percent-encoded separators and dots, with a before/after snapshot of everything outside the destination; (e) Manager.Update on a chart with a symlink planted at Chart.lock / requirements.lock in four shapes (relative target with .., absolute target, local-looking target through a directory link that leaves the chart, target inside the chart); non-trivial = name has a '..', '.', empty, absolute, drive or backslash component; distinct = hash of the case")
 	tmp, _ := os.MkdirTemp("", "corr-paths")
 	defer os.RemoveAll(tmp)
 	for i := 0; i < n; i++ {
@@ -163,6 +165,7 @@ func corrPaths(seed uint64, n int, tier string, out string, replay string) {
 	for i := 0; i < 8; i++ {
 		lockCase(rep, tmp, i%2 == 1, i/2, seed, i)
 	}
+	downloadCases(rep, tmp, seed)
 	rep.Write(out, m)
 }
 
@@ -401,4 +404,43 @@ func lockCase(rep *Report, tmp string, legacy bool, shape int, seed uint64, idx 
 		rep.Issue(Issue{Kind: "monitor", Fingerprint: "C16:lock-symlink", What: "Manager.Update wrote the lock file through a symlink planted at " + lockName + " (" + shapeName + "): the file the link leads to was overwritten", Case: map[string]any{"lock": lockName, "shape": shapeName, "changes": outsideChanges(before, after, "parent")}, Seed: seed, Index: idx})
 	}
 	os.RemoveAll(root)
+}
+
+// downloadCases: a chart download writes only inside its destination directory, whatever the last segment of the
+// chart URL looks like (the URL comes from a repository index, i.e. from the repository).
+func downloadCases(rep *Report, tmp string, seed uint64) {
+	tgz, _ := mkTarGz([]tarEntry{{Name: "c/Chart.yaml", Body: []byte("apiVersion: v2\nname: c\nversion: 0.1.0\n")}})
+	srv := httptest.NewServer(http.HandlerFunc(func(w http.ResponseWriter, r *http.Request) {
+		if strings.HasSuffix(r.URL.Path, ".prov") {
+			http.NotFound(w, r)
+			return
+		}
+		w.Write(tgz)
+	}))
+	defer srv.Close()
+	names := []string{"c-0.1.0.tgz", "..%2F..%2Fescaped.tgz", "..%2Fvictim.txt", "%2e%2e%2fescaped2.tgz", "a%2Fb.tgz", "%2Ftmp%2Fabs-escape.tgz", "..%5C..%5Cback.tgz", "c-0.1.0.tgz?x=..%2F..%2Fq", "sub/..%2F..%2F..%2Fdeep.tgz", "%2E%2E", "c%20space.tgz"}
+	for i, name := range names {
+		root := filepath.Join(tmp, fmt.Sprintf("dl-%d", i))
+		dest := filepath.Join(root, "work", "dest")
+		os.MkdirAll(dest, 0o755)
+		os.WriteFile(filepath.Join(root, "work", "victim.txt"), []byte("precious"), 0o644)
+		os.WriteFile(filepath.Join(root, "victim.txt"), []byte("precious"), 0o644)
+		cfg := filepath.Join(root, "repositories.yaml")
+		os.WriteFile(cfg, []byte("apiVersion: v1\nrepositories: []\n"), 0o644)
+		before := snapshot(root)
+		var err error
+		if p := safely(func() {
+			cd := downloader.ChartDownloader{Out: io.Discard, Verify: downloader.VerifyNever, Getters: getter.Providers{{Schemes: []string{"http"}, New: getter.NewHTTPGetter}}, RepositoryConfig: cfg, RepositoryCache: filepath.Join(root, "work", "dest", "cache")}
+			_, _, err = cd.DownloadTo(srv.URL+"/charts/"+name, "", dest)
+		}); p != "" {
+			rep.Issue(Issue{Kind: "monitor", Fingerprint: "C20:panic:DownloadTo", What: p, Case: map[string]any{"name": name}, Seed: seed, Index: 2000 + i})
+		}
+		after := snapshot(root)
+		rep.Count(map[string]any{"download": name}, true)
+		rep.H("download:" + map[bool]string{true: "error", false: "ok"}[err != nil])
+		if ch := outsideChanges(before, after, filepath.Join("work", "dest")); len(ch) > 0 {
+			rep.Issue(Issue{Kind: "monitor", Fingerprint: "C16:escape:DownloadTo", What: fmt.Sprintf("downloading %q into a directory changed files outside it: %v", name, ch), Case: map[string]any{"name": name, "changes": ch}, Seed: seed, Index: 2000 + i})
+		}
+		os.RemoveAll(root)
+	}
 }
